@@ -1,6 +1,8 @@
 package types
 
 import (
+	"math"
+
 	errorsmod "cosmossdk.io/errors"
 
 	sdk "github.com/cosmos/cosmos-sdk/types"
@@ -159,11 +161,18 @@ func (m *MsgVote) ValidateBasic() error {
 	// Map to track signal IDs for duplicate check
 	signalIDSet := make(map[string]struct{})
 
+	totalPower := int64(0)
 	for _, signal := range m.Signals {
 		// Validate Signal
 		if err := signal.Validate(); err != nil {
 			return err
 		}
+
+		// The sum of signal powers is what gets locked; it must not wrap around int64.
+		if signal.Power > math.MaxInt64-totalPower {
+			return ErrInvalidSignal.Wrap("sum of signal powers overflows")
+		}
+		totalPower += signal.Power
 
 		// Check for duplicate signal IDs
 		if _, exists := signalIDSet[signal.ID]; exists {
